@@ -9,7 +9,7 @@ M("sf2-key-by-reference", "scalar_function.py", "        self.x = np.atleast_1d(
 M("sf2-g-flag-not-reset", "scalar_function.py", "        self.f_updated = False\n        self.g_updated = False\n        self.H_updated = False\n\n    def _update_fun", "        self.f_updated = False\n        self.H_updated = False\n\n    def _update_fun", ["SF2"])
 M("sf3-flag-set-before-eval", "scalar_function.py", "            self._update_fun_impl()\n            self.f_updated = True\n", "            self.f_updated = True\n            self._update_fun_impl()\n", ["SF3"], canary=True,
   note="an exception in the user's objective leaves the flag set: a stale value is served afterwards")
-M("sf3-flag-set-in-update_x", "scalar_function.py", "        self.f_updated = False\n        self.g_updated = False\n        self.H_updated = False\n\n    def _update_fun", "        self.f_updated = False\n        self.g_updated = self.n == 0\n        self.g_updated = True if self.n == 0 else False\n        self.H_updated = False\n\n    def _update_fun", ["SF3", "SF2"])
+M("sf3-flag-set-in-update_x", "scalar_function.py", "        self.f_updated = False\n        self.g_updated = False\n        self.H_updated = False\n\n    def _update_fun", "        self.f_updated = False\n        self.g_updated = self.n == 0\n        self.g_updated = True if self.n == 0 else False\n        self.H_updated = False\n\n    def _update_fun", ["SF2", "SF3"])
 M("sf3-no-flag-test", "scalar_function.py", "        if not self.f_updated:\n            self._update_fun_impl()\n            self.f_updated = True\n", "        self._update_fun_impl()\n        self.f_updated = True\n", ["SF3"], note="re-evaluates at the point last evaluated")
 M("sf4-scale-folded-into-cache", "scalar_function.py", "            self.f = fun_wrapped(self.x)\n", "            self.f = fun_wrapped(self.x) * self.scaling_factor\n", ["SF4", "SF3"], canary=True)
 M("sf4-grad-unscaled", "scalar_function.py", "        return self.f * self.scaling_factor, self.g * self.scaling_factor\n", "        return self.f * self.scaling_factor, self.g\n", ["SF4"])
